@@ -316,7 +316,8 @@ def regex_of(lex):
     if k == 'gen':
         return re.escape(lex[1]) + '[0-9]+'
     if k == 'intstr':
-        return '-?(?:0|[1-9][0-9]*)'
+        # integers that become text come from counters, len() and range(): non-negative
+        return '(?:0|[1-9][0-9]*)'
     if k == 'any':
         return r'[\s\S]*'
     if k == 'cat':
